@@ -45,6 +45,8 @@ def WRITE(e): return {"k": "write", "e": e}
 def SLEEP(e): return {"k": "sleep", "e": e}
 def DWRITE(pin, e): return {"k": "dwrite", "pin": pin, "e": e}
 def AWRITE(pin, e): return {"k": "awrite", "pin": pin, "e": e}
+def PMODE(pin, mode): return {"k": "pmode", "pin": pin, "m": mode}       # mode: "out" | "in" | "inpu"
+_PMODE_SRC = {"out": "OUTPUT", "in": "INPUT", "inpu": "INPUT_PULLUP"}
 def EXPR(e): return {"k": "expr", "e": e}
 def APPEND(n, e): return {"k": "append", "n": n, "e": e}
 def REMOVE(n, e): return {"k": "remove", "n": n, "e": e}
@@ -58,9 +60,11 @@ def FOR(v, stop, body, start=None, step=None):
     return {"k": "for", "v": v, "start": start if start is not None else I(0), "stop": stop,
             "step": step if step is not None else I(1), "body": list(body), "form": 1 if start is None and step is None else (2 if step is None else 3)}
 def DEF(params, body, globals_=()): return {"params": list(params), "globals": list(globals_), "body": list(body)}
-def PROG(setup, loop=None, defs=None, npass=3, ain=(), pid="p"):
+def PROG(setup, loop=None, defs=None, npass=3, ain=(), pid="p", lead=0):
+    """lead: how many prologue statements stand BEFORE the helper definitions in the script text (a layout choice only: the
+    statements must not call the helpers; the meaning - and the specification's execution - is the same)."""
     return {"id": pid, "defs": defs or {}, "setup": list(setup), "loop": list(loop or []), "hasloop": loop is not None,
-            "npass": npass, "ain": list(ain)}
+            "npass": npass, "ain": list(ain), "lead": int(lead)}
 
 
 # ------------------------------------------------------------------ tokens
@@ -116,7 +120,7 @@ def value_toks(v) -> list:
 
 # ------------------------------------------------------------------ renderer
 HEADER = ["from Reduino import target", "from Reduino.Communication import SerialMonitor", "from Reduino.Utils import sleep",
-          "from Reduino.Sensors import Potentiometer", "from Reduino.Core import pin_mode, digital_write, analog_write, OUTPUT, HIGH, LOW",
+          "from Reduino.Sensors import Potentiometer", "from Reduino.Core import pin_mode, digital_write, analog_write, OUTPUT, INPUT, INPUT_PULLUP, HIGH, LOW",
           "", 'target("COM3", upload=False)', "mon = SerialMonitor(9600)"]
 
 
@@ -179,6 +183,8 @@ def rblock(b, ind, unit="    ") -> list:
             out.append(f"{p}digital_write({s['pin']}, {rexpr(s['e'])})")
         elif k == "awrite":
             out.append(f"{p}analog_write({s['pin']}, {rexpr(s['e'])})")
+        elif k == "pmode":
+            out.append(f"{p}pin_mode({s['pin']}, {_PMODE_SRC[s['m']]})")
         elif k == "expr":
             out.append(f"{p}{rexpr(s['e'])}")
         elif k == "append":
@@ -209,12 +215,12 @@ def rblock(b, ind, unit="    ") -> list:
     return out or [p + "pass"]
 
 
-def pins_of(prog) -> set:
+def pins_of(prog, kinds=("dwrite", "awrite")) -> set:
     pins = set()
 
     def walk(b):
         for s in b:
-            if s["k"] in ("dwrite", "awrite"):
+            if s["k"] in kinds:
                 pins.add(s["pin"])
             for key in ("body", "orelse"):
                 if key in s and isinstance(s[key], list):
@@ -227,6 +233,11 @@ def pins_of(prog) -> set:
     return pins
 
 
+def mode_pins(prog) -> set:
+    """Pins the program configures with its own pin_mode statements (their mode events are part of the compared trace)."""
+    return pins_of(prog, ("pmode",))
+
+
 def uses_feed(prog) -> bool:
     import json
     return '"aread"' in json.dumps(prog)
@@ -236,14 +247,16 @@ def render(prog) -> str:
     L = list(HEADER)
     if uses_feed(prog):
         L.append('feed = Potentiometer("A0")')
-    for pin in sorted(pins_of(prog)):
+    for pin in sorted(pins_of(prog) - mode_pins(prog)):       # pins whose mode the program sets itself get no automatic line
         L.append(f"pin_mode({pin}, OUTPUT)")
+    lead = int(prog.get("lead", 0))
+    L += rblock(prog["setup"][:lead], 0) if lead else []
     for f, d in prog["defs"].items():
         L.append(f"def {f}({', '.join(d['params'])}):")
         for g in d["globals"]:
             L.append(f"    global {g}")
         L += rblock(d["body"], 1)
-    L += rblock(prog["setup"], 0) if prog["setup"] else []
+    L += rblock(prog["setup"][lead:], 0) if prog["setup"][lead:] else []
     if prog["hasloop"]:
         L.append("while True:")
         L += rblock(prog["loop"], 1)
@@ -259,7 +272,7 @@ def _alarm(_s, _f):
     raise TimeoutError("cpython leg timeout")
 
 
-def run_cpython(src: str, npass: int, ain: list, timeout_s: int = 10) -> dict:
+def run_cpython(src: str, npass: int, ain: list, timeout_s: int = 10, watch_modes=frozenset()) -> dict:
     """Execute the script text under CPython against the real host modules, recording the event vocabulary."""
     import importlib
     import Reduino
@@ -292,6 +305,10 @@ def run_cpython(src: str, npass: int, ain: list, timeout_s: int = 10) -> dict:
     def awrite(pin, value):
         evs.append({"e": "aw", "p": pin if isinstance(pin, int) else -1, "v": value if isinstance(value, int) else -1})
 
+    def pmode(pin, mode):
+        if pin in watch_modes:
+            evs.append({"e": "pm", "p": pin, "m": {C.OUTPUT: "out", C.INPUT: "in", C.INPUT_PULLUP: "inpu"}.get(mode, "?")})
+
     cnt = {"k": 0}
 
     def passes():
@@ -311,7 +328,7 @@ def run_cpython(src: str, npass: int, ain: list, timeout_s: int = 10) -> dict:
     ast.fix_missing_locations(tree)
     saved = (U.sleep, SM.SerialMonitor.write, POT.Potentiometer.read, C.digital_write, C.analog_write, C.pin_mode, Reduino.target)
     U.sleep, SM.SerialMonitor.write, POT.Potentiometer.read = sleep, write, pot_read
-    C.digital_write, C.analog_write, C.pin_mode = dwrite, awrite, (lambda *a, **k: None)
+    C.digital_write, C.analog_write, C.pin_mode = dwrite, awrite, pmode
     Reduino.target = lambda *a, **k: ""
     old = signal.signal(signal.SIGALRM, _alarm)
     signal.alarm(timeout_s)
@@ -328,7 +345,7 @@ def run_cpython(src: str, npass: int, ain: list, timeout_s: int = 10) -> dict:
 
 
 # ------------------------------------------------------------------ firmware leg
-def fw_events(raw: list, pins: set) -> list:
+def fw_events(raw: list, pins: set, mpins=frozenset()) -> list:
     out = []
     for e in raw:
         t = e.get("e")
@@ -346,6 +363,8 @@ def fw_events(raw: list, pins: set) -> list:
             out.append({"e": "pass", "k": e["k"]})
         elif t in ("dw", "aw") and e["p"] in pins:
             out.append({"e": t, "p": e["p"], "v": e["v"]})
+        elif t == "pm" and e["p"] in mpins:
+            out.append({"e": "pm", "p": e["p"], "m": {0: "in", 1: "out", 2: "inpu"}.get(e["m"], str(e["m"]))})
         elif t == "raw":
             out.append({"e": "w", "toks": [{"k": "t", "v": "<raw>"}]})
     return out
@@ -401,15 +420,15 @@ def lang_job(job: dict) -> dict:
     elif r.get("compile") != "ok":
         out["fw"] = {"status": "compile_fail", "cls": "", "msg": (r.get("stderr") or "")[-600:], "ev": []}
     elif r.get("rc", 0) != 0:
-        out["fw"] = {"status": "run_fail", "cls": str(r.get("memerr")), "msg": (r.get("stderr") or "")[-400:], "ev": fw_events(r["events"], pins_of(prog))}
+        out["fw"] = {"status": "run_fail", "cls": str(r.get("memerr")), "msg": (r.get("stderr") or "")[-400:], "ev": fw_events(r["events"], pins_of(prog), mode_pins(prog))}
     else:
-        out["fw"] = {"status": "ok", "cls": "", "msg": "", "ev": fw_events(r["events"], pins_of(prog))}
+        out["fw"] = {"status": "ok", "cls": "", "msg": "", "ev": fw_events(r["events"], pins_of(prog), mode_pins(prog))}
     out["decl"] = declared_types(r["cpp"]) if r.get("cpp") else {}
     if job.get("want_cpp"):
         out["cpp"] = r.get("cpp")
     if job.get("raw"):
         out["raw"] = r.get("events")
-    py = run_cpython(src, prog["npass"] if prog["hasloop"] else 0, prog["ain"])
+    py = run_cpython(src, prog["npass"] if prog["hasloop"] else 0, prog["ain"], watch_modes=mode_pins(prog))
     out["py"] = {"status": py["status"], "cls": py.get("cls", ""), "msg": py.get("msg", ""), "ev": py["ev"]}
     return out
 
